@@ -43,7 +43,9 @@ CONSTANTS Peers,            \* remote peers
           ApiCloses,        \* blacklistPeer case closes the queue (FALSE: P_C16_Api fails)
           ApiClears,        \* ... clears the topic state          (FALSE: P_C16_Api fails)
           ApiNotifies,      \* ... notifies the router             (FALSE: P_C16_Api fails)
-          GraftNeedsStream  \* handleGraft requires gs.peers[p]    (FALSE = as found, DESIGN D6: P_C16_Api fails)
+          GraftNeedsStream, \* handleGraft requires gs.peers[p]    (FALSE = as found, DESIGN D6: P_C16_Api fails)
+          ApiSkipsIfPresent \* blacklistPeer case does nothing when Add reports the peer as already present
+                            \* (FALSE = the code; TRUE: P_C16_Api fails for direct Add followed by BlacklistPeer)
 
 VARIABLES
     net,      \* net[p]   : a libp2p connection to p exists (p can send on its inbound stream)
@@ -231,7 +233,9 @@ Blacklist(p, how) ==
          ELSE /\ blapi' = [blapi EXCEPT ![p] = TRUE]
               /\ exempt' = [exempt EXCEPT ![p] = popped[p]]
               /\ wrote' = [wrote EXCEPT ![p] = 0]
-              /\ IF q[p] = "open"
+              \* the clean-up does not depend on what Add returns: BlacklistPeer of a peer that is already in
+              \* the blacklist (added directly before) must still close its queue and forget it
+              /\ IF q[p] = "open" /\ ~(ApiSkipsIfPresent /\ bl[p])
                    THEN /\ q' = [q EXCEPT ![p] = "none"]
                         /\ qlen' = [qlen EXCEPT ![p] = IF ApiCloses THEN 0 ELSE @]
                         /\ wq' = [wq EXCEPT ![p] = IF ApiCloses /\ @ = "open" THEN "closed" ELSE @]
